@@ -8,6 +8,7 @@ import L4.Drv.Tls
 import L4.Drv.Socks5
 import L4.Drv.Throttle
 import L4.Drv.Relay
+import L4.Drv.Health
 open L4 L4.Drv
 
 def dispatch (line : String) : String :=
@@ -22,6 +23,7 @@ def dispatch (line : String) : String :=
   | "socks5" :: rest => (doSocks5.run rest).1
   | "throttle" :: rest => (doThrottle.run rest).1
   | "relay" :: rest => (doRelay.run rest).1
+  | "health" :: rest => (doHealth.run rest).1
   | _ => "bad-op"
 
 partial def loop (h : IO.FS.Stream) (out : IO.FS.Stream) : IO Unit := do
